@@ -261,10 +261,13 @@ async fn run_all(acc: &mut Acc, thorough: bool) -> Result<(), Box<dyn std::error
         let dir = acc.newdir();
         let bad = Cfg { network: "signet".into(), traces: true, auth_without_user: true };
         case(acc, "fresh_then_validate_config_fails", &dir, &bad, false, Some(false), None, "fresh run, but validate_config refuses the configuration").await?;
-        let d2 = acc.newdir(); copy_dir(&dir, &d2)?;
-        case(acc, "reopen_other", &d2, &Cfg { network: "mainnet".into(), traces: true, auth_without_user: false }, false, Some(false), None, "rows recorded by a start-up that never served; other network").await?;
-        let d3 = acc.newdir(); copy_dir(&dir, &d3)?;
-        case(acc, "reopen_same", &d3, &Cfg { network: "signet".into(), traces: true, auth_without_user: false }, false, Some(true), None, "rows recorded by a start-up that never served; same network and traces").await?;
+        // (if start-up validated the configuration first, nothing would have been recorded and
+        //  both reopenings would be fresh runs)
+        let bound = matches!(read_dir_state(&dir)?, DirState::Dir { cfg: Some(ref r), .. } if r.len() == 4);
+        let d2 = acc.newdir(); if dir.exists() { copy_dir(&dir, &d2)?; }
+        case(acc, "reopen_other", &d2, &Cfg { network: "mainnet".into(), traces: true, auth_without_user: false }, false, Some(!bound), None, "after a start-up that validate_config refused; other network").await?;
+        let d3 = acc.newdir(); if dir.exists() { copy_dir(&dir, &d3)?; }
+        case(acc, "reopen_same", &d3, &Cfg { network: "signet".into(), traces: true, auth_without_user: false }, false, Some(true), None, "after a start-up that validate_config refused; same network and traces").await?;
     }
 
     // F. the first start-up died while recording the rows (persistent write k fails): what is
